@@ -2973,6 +2973,12 @@ def replace_dict_assign_with_dict_literal(source: str) -> str:
     for transaction, (first, *matches) in enumerate(
         core.walk_sequence(root, *template, expand_last=True)
     ):
+        if any(
+            any(core.walk(node, ast.Name(id=first.target.id)))
+            for m in matches
+            for node in (m.key, m.value)
+        ):
+            continue  # The dict is used to compute its own new items
         replacement = ast.Assign(
             targets=[first.target],
             value=ast.Dict(
@@ -3006,6 +3012,8 @@ def replace_dict_update_with_dict_literal(source: str) -> str:
     for transaction, (first, *matches) in enumerate(
         core.walk_sequence(root, *template, expand_last=True)
     ):
+        if any(any(core.walk(m.other, ast.Name(id=first.target.id))) for m in matches):
+            continue  # The dict is used to compute its own new items
         replacement = ast.Assign(
             targets=[first.target],
             value=ast.Dict(
@@ -3037,6 +3045,12 @@ def replace_dictcomp_assign_with_dict_literal(source: str) -> str:
     for transaction, (first, *matches) in enumerate(
         core.walk_sequence(root, *template, expand_last=True)
     ):
+        if any(
+            any(core.walk(node, ast.Name(id=first.target.id)))
+            for m in matches
+            for node in (m.key, m.value)
+        ):
+            continue  # The dict is used to compute its own new items
         replacement = ast.Assign(
             targets=[first.target],
             value=ast.Dict(
@@ -3066,6 +3080,8 @@ def replace_dictcomp_update_with_dict_literal(source: str) -> str:
     for transaction, (first, *matches) in enumerate(
         core.walk_sequence(root, *template, expand_last=True)
     ):
+        if any(any(core.walk(m.other, ast.Name(id=first.target.id))) for m in matches):
+            continue  # The dict is used to compute its own new items
         replacement = ast.Assign(
             targets=[first.target],
             value=ast.Dict(
